@@ -64,6 +64,13 @@ func (x *Exec) globalRef(g *ssa.Global) Term {
 			x.c.Assume(Not(Eq(t, o)))
 		}
 		x.globalList = append(x.globalList, t)
+		if x.e.nonNilErrorGlobals()[g] {
+			// package-level `var ErrX = errors.New(..)`: non-nil once the package is initialised
+			pt := g.Type().Underlying().(*types.Pointer).Elem()
+			h0 := x.c.Named("H0_"+objKey(pt, "#tag"), SArr(SRef, SBV(32)))
+			x.c.Assume(Not(Eq(Select(h0, t), BVLit(0, 32))))
+			x.c.Note("package-level error variables assigned once from errors.New/fmt.Errorf by the package initialiser are non-nil")
+		}
 	}
 	return t
 }
@@ -183,15 +190,22 @@ func (x *Exec) nilCheck(fr *frame, ptr Val, reach Term, p token.Pos) {
 		ref = ptr.L[0]
 	}
 	nonnil := Not(Eq(ref, BVLit(0, 32)))
-	if fr.top && x.ct != nil && x.ct.NoPanic || x.noPanicAll {
-		if !x.knownNonNil[ref.S] {
-			x.addObl(x.fname()+"#nopanic[nil]", "nopanic", "no nil dereference", x.propsOrNil(),
-				OblPart{NegGoal: And(reach, Not(nonnil)), NAssume: len(x.c.Assumes), Where: x.pos(p)}, false)
-		}
+	if x.knownNonNil[ref.S] {
+		return // unconditionally non-nil (fresh allocation)
 	}
-	if !x.knownNonNil[ref.S] {
+	// the memo is path-sensitive: a dereference under a guard says nothing
+	// about a later unguarded dereference of the same pointer
+	key := ref.S + "@" + reach.S
+	if x.knownNonNil[key] {
+		return
+	}
+	if (fr.top && x.ct != nil && x.ct.NoPanic || x.noPanicAll) && x.specDepth == 0 {
+		x.addObl(x.fname()+"#nopanic[nil]", "nopanic", "no nil dereference", x.propsOrNil(),
+			OblPart{NegGoal: And(reach, Not(nonnil)), NAssume: len(x.c.Assumes), Where: x.pos(p)}, false)
+	}
+	if x.specDepth == 0 {
 		x.assume(Imp(reach, nonnil))
-		x.knownNonNil[ref.S] = true
+		x.knownNonNil[key] = true
 	}
 }
 
